@@ -954,3 +954,49 @@ func (p *Prog) sliceStart(fi *FuncInfo, t *Term, depth int) (*Term, *Linear, boo
 	}
 	return nil, nil, false
 }
+
+// liftPastPrefix: the statement n of fi, for a rule about the state in which it executes, may be judged at the
+// single call site of fi — fi is an unexported helper called from exactly one place (never a value, never
+// go/defer), n executes at most once per call (it cannot reach itself), and nothing that can run in fi before n
+// writes one of the given fields (directly or through a callee). The state of those fields at n is then the
+// state at the call. Returns the caller, the call and the helper's parameters (receiver first, nil when absent).
+func (p *Prog) liftPastPrefix(fi *FuncInfo, n ast.Node, fields ...*types.Var) (*FuncInfo, *ast.CallExpr, []*types.Var, bool) {
+	fi = rootFuncInfo(fi)
+	caller, call, ok := p.singleCaller(fi)
+	if !ok || fi.Decl == nil {
+		return nil, nil, nil, false
+	}
+	if sig, isSig := fi.Obj.Type().(*types.Signature); isSig && sig.Variadic() {
+		return nil, nil, nil, false
+	}
+	c := p.CFG(fi)
+	pt, ok := c.PointOf(n)
+	if !ok {
+		return nil, nil, nil, false
+	}
+	if c.Reaches(Point{pt.B, pt.I + 1}, pt) {
+		return nil, nil, nil, false
+	}
+	for _, q := range c.AllPoints() {
+		if q == pt || c.Dominates(pt, q) {
+			continue
+		}
+		te := p.NodeTransEffects(q.Node())
+		for _, f := range fields {
+			if te.FieldW[f] {
+				return nil, nil, nil, false
+			}
+		}
+	}
+	params := []*types.Var{p.recvVar(fi)}
+	for _, fl := range fi.Decl.Type.Params.List {
+		if len(fl.Names) == 0 {
+			params = append(params, nil)
+		}
+		for _, nm := range fl.Names {
+			v, _ := p.Info.Defs[nm].(*types.Var)
+			params = append(params, v)
+		}
+	}
+	return caller, call, params, true
+}
